@@ -328,6 +328,10 @@ func (in *interp) evalCall(c *ast.CallExpr, sc *scope) []aval {
 				}
 				return nil
 			}
+			if id.Name == "time" && name == "Unix" && len(c.Args) == 2 && in.render(c.Args[0]) == "0" && in.render(c.Args[1]) == "math.MaxInt64" {
+				// the largest instant an int64 nanosecond column can hold: what now+ttl saturates at
+				return []aval{avTime{kind: "horizon"}}
+			}
 			if id.Name == "fmt" && name == "Sprintf" {
 				for _, a := range c.Args {
 					if _, ok := in.eval(a, sc).(avTmpl); ok && strings.Contains(strings.ToLower(in.render(a)), "queue_items") {
@@ -366,6 +370,12 @@ func (in *interp) evalCall(c *ast.CallExpr, sc *scope) []aval {
 		case "UnixNano", "UTC":
 			if len(c.Args) == 0 {
 				return []aval{in.eval(f.X, sc)}
+			}
+		case "In":
+			if len(c.Args) == 1 {
+				if t, ok := in.eval(f.X, sc).(avTime); ok {
+					return []aval{t}
+				}
 			}
 		case "Nanoseconds":
 			if in.render(f.X) == "extendBy" {
